@@ -175,3 +175,58 @@ def has_equal_factors(case):
             return True
         seen.add(k)
     return False
+
+
+def gen_jtx_case(rng, label_kind=None):
+    """an EXPLICIT junction tree (hand-made, as a user would write it), with the running intersection property by construction:
+    every new clique = a non-empty subset S of an existing clique + fresh variables; with probability 1/2 the separator S itself is a
+    node of the tree between the two (HUGIN / Shafer-Shenoy style), also a single-variable hub shared by several children.
+    One factor per tree node (random axis order); the joint is the product of all of them."""
+    nmax = rng.randint(3, 7)
+    names = gen.node_names(rng, nmax, rng.choice(["str", "word", "int"]))
+    card = [rng.choice([2, 2, 3]) for _ in range(nmax)]
+    labels = [gen.state_labels(rng, c, label_kind or rng.choice(["int", "str", "permint"])) for c in card]
+    k0 = rng.randint(1, min(3, nmax - 1))
+    cliques = [list(range(k0))]
+    edges = []
+    nxt = k0
+    while nxt < nmax:
+        p = rng.randrange(len(cliques))
+        P = cliques[p]
+        S = sorted(rng.sample(P, rng.randint(1, min(2, len(P)))))
+        new = list(range(nxt, min(nmax, nxt + rng.choice([1, 1, 2]))))
+        nxt += len(new)
+        C = S + new
+        if len(S) < len(P) and rng.random() < .5:
+            if S in cliques:
+                si = cliques.index(S)
+            else:
+                cliques.append(S)
+                si = len(cliques) - 1
+                edges.append([p, si])
+            cliques.append(C)
+            edges.append([si, len(cliques) - 1])
+        else:
+            cliques.append(C)
+            edges.append([p, len(cliques) - 1])
+    fs = []
+    for c in cliques:
+        sc = list(c)
+        rng.shuffle(sc)
+        size = 1
+        for v in sc:
+            size *= card[v]
+        fs.append({"scope": sc, "vals": [rs(x) for x in gen.rand_vals(rng, size, rng.choice(["generic", "generic", "zeros"]))]})
+    return {"nodes": names, "card": card, "labels": labels, "factors": fs, "dup": False, "jt_cliques": cliques, "jt_edges": edges}
+
+
+def to_explicit_jt(case):
+    from pgmpy.models import JunctionTree
+    pn = [gen.lab(x) for x in case["nodes"]]
+    jt = JunctionTree()
+    nodes = [tuple(pn[v] for v in c) for c in case["jt_cliques"]]
+    jt.add_nodes_from(nodes)
+    for a, b in case["jt_edges"]:
+        jt.add_edge(nodes[a], nodes[b])
+    jt.add_factors(*[gen.factor_to_pgmpy(case["nodes"], case["card"], case["labels"], f) for f in case["factors"]])
+    return jt
